@@ -3,10 +3,12 @@
    Executable definitions only (no proofs): this file keeps compiling (and the
    correspondence check keeps running) when a proof breaks.
 
-   Scope.  The circuit breaker of the same class is property C08 and is not
-   modelled here: the harness constructs the loop with
-   enable_circuit_breaker=False, and in that configuration run() never
-   consults the breaker state.
+   Scope.  [step] is one call of run() that the circuit breaker admits (always,
+   when enable_circuit_breaker=False).  The breaker of the same class (whose own
+   behaviour is property C08) is a layer on top of it, [bstep]: it either
+   rejects the request before cache and agents are looked at (the blocked
+   CIRCUIT_OPEN result) or lets [step] run and then updates its own state from
+   what happened.  Proofs.v shows that this is ALL it does to the replies.
 
    What is abstract.  Strings (prompts, hashes, cache keys, the assessor's
    name) are lists of code points.  sha256(prompt)[:16] is the Section
@@ -18,8 +20,8 @@
    on a cache hit, and the assessor is not invoked when the executor raised).
 
    Histories.  One loop object is driven by a list of operations [op]:
-   requests, clear_cache() and the read-only calls (get_statistics,
-   get_results_log, get_circuit_breaker_stats).  Time is in whatever unit the
+   requests, clear_cache(), reset_circuit_breaker() and the read-only calls
+   (get_statistics, get_results_log, get_circuit_breaker_stats).  Time is in whatever unit the
    harness chooses (milliseconds), ttl in the same unit.  A case of the
    correspondence check drives TWO loop objects (each with its own
    configuration, agents and cache) by one interleaved list of operations. *)
@@ -40,7 +42,7 @@ Inductive verdict :=
 Inductive logic := LAnd | LOr | LMajority | LUnanimous | LExecPrio | LAssessPrio.
 
 (* LoopResult.action *)
-Inductive action := ASuccess | ABlocked | AFailure | ASkipped | AError.
+Inductive action := ASuccess | ABlocked | AFailure | ASkipped | AError | ACircuitOpen.
 
 (* the decision part of a LoopResult; [g_token] says whether the
    approval_token field is set (not None) *)
@@ -129,7 +131,8 @@ Record req := mkReq { q_prompt : str; q_time : Z; q_exec : verdict; q_assess : v
 Inductive op :=
 | OReq (q : req)      (* loop.run(prompt) *)
 | OClear              (* loop.clear_cache() *)
-| OObserve.           (* get_statistics / get_results_log / get_circuit_breaker_stats *)
+| OObserve            (* get_statistics / get_results_log / get_circuit_breaker_stats *)
+| OReset.             (* loop.reset_circuit_breaker(): touches the breaker only *)
 
 (* one step of a history as the harness sees it: the operation, the reply if
    it was a request, len(loop._cache) afterwards *)
@@ -184,6 +187,73 @@ Definition check_cache (cf : config) (now : Z) (k : str) (c : cache) : option co
 
 Definition error_core : core := mkCore false AError true None.
 
+(* ---------------------------------------------------------------------- *)
+(* the circuit breaker's own state (loops.py 438-491, 549-553)              *)
+
+Inductive circuit := CClosed | COpen | CHalfOpen.
+
+Record breaker := mkBrk {
+  b_state : circuit;          (* _circuit_state *)
+  b_failures : Z;             (* _failure_count *)
+  b_last : option Z }.        (* _last_failure *)
+
+Record bconfig := mkBcfg {
+  bc_enabled : bool;          (* enable_circuit_breaker *)
+  bc_threshold : Z;           (* failure_threshold *)
+  bc_recovery : Z }.          (* recovery_timeout, same unit as the clock *)
+
+Definition brk0 : breaker := mkBrk CClosed 0 None.
+
+(* loops.py 438-457: may the request go on?  An OPEN breaker whose recovery
+   time has passed becomes HALF_OPEN and admits. *)
+Definition check_circuit (bc : bconfig) (now : Z) (b : breaker) : bool * breaker :=
+  match b_state b with
+  | CClosed => (true, b)
+  | CHalfOpen => (true, b)
+  | COpen =>
+      match b_last b with
+      | Some lf => if bc_recovery bc <=? now - lf
+                   then (true, mkBrk CHalfOpen (b_failures b) (b_last b)) else (false, b)
+      | None => (false, b)
+      end
+  end.
+
+(* loops.py 459-470 *)
+Definition record_success (b : breaker) : breaker :=
+  match b_state b with
+  | CHalfOpen => mkBrk CClosed 0 (b_last b)
+  | _ => b
+  end.
+
+(* loops.py 472-491 *)
+Definition record_failure (bc : bconfig) (now : Z) (b : breaker) : breaker :=
+  let n := b_failures b + 1 in
+  mkBrk (match b_state b with
+         | CHalfOpen => COpen
+         | CClosed => if bc_threshold bc <=? n then COpen else CClosed
+         | COpen => COpen
+         end) n (Some now).
+
+(* loops.py 549-553 *)
+Definition reset_breaker (b : breaker) : breaker := mkBrk CClosed 0 (b_last b).
+
+(* loops.py 229-230 and 246-253: what run() tells the breaker after a request
+   that reached the agents (called whether or not the breaker is enabled) *)
+Definition record_outcome (bc : bconfig) (now : Z) (l : logic) (z y : verdict) (b : breaker) : breaker :=
+  if raised z || raised y then record_failure bc now b
+  else
+    let g := apply_gate_logic l z y in
+    if g_success g && negb (g_blocked g) then record_success b
+    else if g_blocked g && negb (executor_fails z) then b
+    else record_failure bc now b.
+
+(* loops.py 203-211: the reply of a request the breaker rejects *)
+Definition circuit_open_core : core := mkCore false ACircuitOpen true None.
+Definition rejected_reply (n : nat) : reply := mkReply circuit_open_core false false false None n.
+
+(* what one loop object holds between calls *)
+Definition lstate := (cache * breaker)%type.
+
 Section Run.
   Variable H : str -> str.     (* sha256(prompt.encode()).hexdigest()[:16] *)
   Variable K : str -> str.     (* md5(prompt.encode()).hexdigest()[:16]    *)
@@ -217,6 +287,7 @@ Section Run.
     | OReq q => let '(c', rp) := step cf c q in (c', (o, Some rp, length c'))
     | OClear => ([], (o, None, 0%nat))
     | OObserve => (c, (o, None, length c))
+    | OReset => (c, (o, None, length c))
     end.
 
   (* the cache after a sequence of operations *)
@@ -247,18 +318,70 @@ Section Run.
 
   Definition trace (cf : config) (ops : list op) : list (req * reply) := trace_from cf [] ops.
 
+  (* ---- the circuit-breaker layer (loops.py 200-211, 229-230, 246-253) ---- *)
+
+  (* one call of run() on a loop with breaker configuration [bc]; the third
+     component says whether the breaker admitted the request.  A rejected
+     request returns at line 211: neither _check_cache (so no expired entry is
+     deleted) nor an agent is reached.  An admitted request is [step]; a cache
+     hit returns at line 220 and tells the breaker nothing. *)
+  Definition bstep (cf : config) (bc : bconfig) (s : lstate) (q : req) : lstate * reply * bool :=
+    let '(c, b) := s in
+    let '(ok, b1) := if bc_enabled bc then check_circuit bc (q_time q) b else (true, b) in
+    if ok then
+      let '(c', rp) := step cf c q in
+      ((c', if r_cached rp then b1
+            else record_outcome bc (q_time q) (cf_logic cf) (q_exec q) (q_assess q) b1), rp, true)
+    else ((c, b1), rejected_reply (length c), false).
+
+  (* an event of a breaker history: the step as before + "was admitted" *)
+  Definition bev := (ev * bool)%type.
+
+  Definition bstep_op (cf : config) (bc : bconfig) (s : lstate) (o : op) : lstate * bev :=
+    match o with
+    | OReq q => let '(s', rp, adm) := bstep cf bc s q in (s', ((o, Some rp, length (fst s')), adm))
+    | OClear => (([], snd s), ((o, None, 0%nat), true))
+    | OObserve => (s, ((o, None, length (fst s)), true))
+    | OReset => ((fst s, reset_breaker (snd s)), ((o, None, length (fst s)), true))
+    end.
+
+  Fixpoint betrace_from (cf : config) (bc : bconfig) (s : lstate) (ops : list op) : list bev :=
+    match ops with
+    | [] => []
+    | o :: rest => let '(s', e) := bstep_op cf bc s o in e :: betrace_from cf bc s' rest
+    end.
+
+  Definition betrace (cf : config) (bc : bconfig) (ops : list op) : list bev :=
+    betrace_from cf bc ([], brk0) ops.
+
+  (* the operations of a history that reach cache and agents: everything but
+     the requests the breaker rejected *)
+  Fixpoint admitted_from (cf : config) (bc : bconfig) (s : lstate) (ops : list op) : list op :=
+    match ops with
+    | [] => []
+    | o :: rest => let '(s', e) := bstep_op cf bc s o in
+                   (if snd e then [o] else []) ++ admitted_from cf bc s' rest
+    end.
+
+  Definition admitted (cf : config) (bc : bconfig) (ops : list op) : list op :=
+    admitted_from cf bc ([], brk0) ops.
+
+  (* the steps of a breaker history that were admitted *)
+  Definition admitted_evs (l : list bev) : list ev := map fst (filter snd l).
+
   (* two loop objects driven by one interleaved list of operations
      ([false] = the first object, [true] = the second) *)
-  Fixpoint sys_from (cf0 cf1 : config) (c0 c1 : cache) (tops : list (bool * op)) : list (bool * ev) :=
+  Fixpoint sys_from (cf0 cf1 : config) (bc0 bc1 : bconfig) (s0 s1 : lstate)
+           (tops : list (bool * op)) : list (bool * bev) :=
     match tops with
     | [] => []
     | (b, o) :: rest =>
-        if b then let '(c1', e) := step_op cf1 c1 o in (b, e) :: sys_from cf0 cf1 c0 c1' rest
-        else let '(c0', e) := step_op cf0 c0 o in (b, e) :: sys_from cf0 cf1 c0' c1 rest
+        if b then let '(s1', e) := bstep_op cf1 bc1 s1 o in (b, e) :: sys_from cf0 cf1 bc0 bc1 s0 s1' rest
+        else let '(s0', e) := bstep_op cf0 bc0 s0 o in (b, e) :: sys_from cf0 cf1 bc0 bc1 s0' s1 rest
     end.
 
-  Definition sys_trace (cf0 cf1 : config) (tops : list (bool * op)) : list (bool * ev) :=
-    sys_from cf0 cf1 [] [] tops.
+  Definition sys_trace (cf0 cf1 : config) (bc0 bc1 : bconfig) (tops : list (bool * op)) : list (bool * bev) :=
+    sys_from cf0 cf1 bc0 bc1 ([], brk0) ([], brk0) tops.
 
   (* the part of an interleaved list that concerns one of the two objects *)
   Definition proj {A : Type} (b : bool) (l : list (bool * A)) : list A :=
@@ -269,7 +392,7 @@ End Run.
 (* codes shared with the harness                                            *)
 
 Definition action_code (a : action) : Z :=
-  match a with ASuccess => 0 | ABlocked => 1 | AFailure => 2 | ASkipped => 3 | AError => 4 end.
+  match a with ASuccess => 0 | ABlocked => 1 | AFailure => 2 | ASkipped => 3 | AError => 4 | ACircuitOpen => 5 end.
 
 Definition verdict_of_code (n : Z) : option verdict :=
   match n with
@@ -316,17 +439,19 @@ Definition covers (t : list (Z * Z * Z * list Z)) : bool :=
    injective function would do: the harness checks on every case that the
    real md5[:16]/sha256[:16] are injective on the prompts of the case and
    observes only WHETHER the token hash is the hash of the request). *)
-Inductive cop := CReq (p : str) (t : Z) (z y : verdict) | CClear | CObserve.
+Inductive cop := CReq (p : str) (t : Z) (z y : verdict) | CClear | CObserve | CReset.
 
 Definition op_of (o : cop) : op :=
   match o with
   | CReq p t z y => OReq (mkReq p t z y)
   | CClear => OClear
   | CObserve => OObserve
+  | CReset => OReset
   end.
 
-(* configuration of one loop object: gate logic, assessor name, enable_cache, ttl *)
-Definition lcfg := (logic * str * bool * Z)%type.
+(* configuration of one loop object: gate logic, assessor name, enable_cache, ttl,
+   enable_circuit_breaker, failure_threshold, recovery_timeout *)
+Definition lcfg := (logic * str * bool * Z * bool * Z * Z)%type.
 
 Definition case := (lcfg * lcfg * nat * list (bool * cop))%type.
 
@@ -340,22 +465,25 @@ Definition reply_obs (cf : config) (q : req) (r : reply) : list Z :=
     match r_shown r with Some s => b2z (zl_eqb s (q_prompt q)) | None => -1 end;
     Z.of_nat (r_cache_size r) ].
 
-(* a request row is the eleven values above; clear_cache / observer rows are
-   the cache size alone *)
-Definition ev_obs (cf0 cf1 : config) (x : bool * ev) : list Z :=
-  let '(b, (o, r, n)) := x in
+(* a request row is the eleven values above; clear_cache / reset / observer rows
+   are the cache size alone *)
+Definition ev_obs (cf0 cf1 : config) (x : bool * bev) : list Z :=
+  let '(b, ((o, r, n), _)) := x in
   match o, r with
   | OReq q, Some rp => reply_obs (if b then cf1 else cf0) q rp
   | _, _ => [Z.of_nat n]
   end.
 
 Definition config_of (l : lcfg) (cap : nat) : config :=
-  let '(lg, nm, en, ttl) := l in mkConfig lg nm en ttl cap.
+  let '(lg, nm, en, ttl, _, _, _) := l in mkConfig lg nm en ttl cap.
+
+Definition bconfig_of (l : lcfg) : bconfig :=
+  let '(_, _, _, _, be, th, rc) := l in mkBcfg be th rc.
 
 Definition run_case (c : case) : list (list Z) :=
   let '(l0, l1, cap, tops) := c in
   let cf0 := config_of l0 cap in
   let cf1 := config_of l1 cap in
   map (ev_obs cf0 cf1)
-      (sys_trace (fun p => p) (fun p => p) cf0 cf1
+      (sys_trace (fun p => p) (fun p => p) cf0 cf1 (bconfig_of l0) (bconfig_of l1)
                  (map (fun x : bool * cop => (fst x, op_of (snd x))) tops)).
